@@ -178,6 +178,12 @@ class Exec:
         c = v.const()
         if c is not None:
             return gf2.const_word(c & ((1 << w) - 1), w)
+        syms = [s_ for s_ in v if s_ != 1]
+        if len(syms) == 1 and v[syms[0]] == 1 and isinstance(syms[0], tuple) and syms[0][0] in ("fld", "n", "hvi"):
+            # an integer cell / parameter used as data: a canonical symbolic word (plus its constant part)
+            base = gf2.sym_word(("lfw", repr(syms[0])), w)
+            k0 = v.get(1, 0)
+            return base if not k0 else gf2.wadd(base, gf2.const_word(k0 & ((1 << w) - 1), w))[0]
         return [gf2.TOP] * w
 
     def subst(self, p, lf):
